@@ -302,3 +302,59 @@ func TableParse(lx *Lox, names []string, w []int) bool {
 	}
 	panic("lox table parse did not terminate")
 }
+
+// LNode is a parse-tree node built by interpreting lox's table.
+type LNode struct {
+	Rule  string   // "" for token leaves
+	Terms []string // names of the production's terms
+	Kids  []*LNode
+	Tok   int // leaf: index into the input
+	Sym   string
+}
+
+// TableParseTree is TableParse returning the tree (nil when rejected).
+func TableParseTree(lx *Lox, names []string, w []int) *LNode {
+	t := lx.T
+	terms := map[string]*lr1.Terminal{}
+	for _, tm := range lx.G.Terminals {
+		terms[tm.Name] = tm
+	}
+	type ent struct {
+		st *lr1.ItemSet
+		n  *LNode
+	}
+	stack := []ent{{t.States[0], nil}}
+	pos := 0
+	for steps := 0; steps < 1000000; steps++ {
+		la := 0
+		if pos < len(w) {
+			la = w[pos]
+		}
+		term := terms[names[la]]
+		if term == nil {
+			return nil
+		}
+		acts := t.Actions(stack[len(stack)-1].st).Get(term)
+		if acts.Len() != 1 {
+			return nil
+		}
+		a := acts.Get(0)
+		switch a.Type {
+		case lr1.ActionAccept:
+			return stack[len(stack)-1].n
+		case lr1.ActionShift:
+			stack = append(stack, ent{a.ShiftState, &LNode{Tok: pos, Sym: term.Name}})
+			pos++
+		case lr1.ActionReduce:
+			pr := a.Prods[0]
+			n := &LNode{Rule: pr.Rule.Name, Terms: lr1.TermNames(pr.Terms), Sym: pr.Rule.Name}
+			k := len(pr.Terms)
+			for _, e := range stack[len(stack)-k:] {
+				n.Kids = append(n.Kids, e.n)
+			}
+			stack = stack[:len(stack)-k]
+			stack = append(stack, ent{t.Transitions(stack[len(stack)-1].st).Get(pr.Rule), n})
+		}
+	}
+	panic("lox table parse did not terminate")
+}
